@@ -185,7 +185,7 @@ class C02(Spec):
         self.aux = {}
 
     def gen(self, tier, rng):
-        n = 100 if tier == 'quick' else 3000
+        n = 100 if tier == 'quick' else 1500
         return ([gen_group_case(rng) for _ in range(n)] + [gen_ff_case(rng) for _ in range(n // 2)] +
                 [gen_solve_case(rng) for _ in range(n)])
 
